@@ -374,6 +374,9 @@ func runOnceTrace(t *testing.T, sc *Scenario, choices []int) ([]string, *vsched.
 func lockSites(st []string) string {
 	var out []string
 	for _, s := range st {
+		if i := strings.Index(s, " ["); i >= 0 {
+			s = s[:i]
+		}
 		f := strings.Fields(s)
 		out = append(out, f[len(f)-1])
 	}
